@@ -1,0 +1,209 @@
+//go:build verif
+
+package jd
+
+// Spec functions for contract-based verification (build tag verif only).
+//
+// Everything in this file is pure: no loops, no map iteration, no mutation.
+// The verifier translates these functions to SMT from their SSA form; the
+// replay / runtime-assertion harness calls them natively.
+
+// forallInt reports whether f holds for every i in [lo, hi).
+func forallInt(lo, hi int, f func(i int) bool) bool {
+	for i := lo; i < hi; i++ {
+		if !f(i) {
+			return false
+		}
+	}
+	return true
+}
+
+// existsInt reports whether f holds for some i in [lo, hi).
+func existsInt(lo, hi int, f func(i int) bool) bool {
+	for i := lo; i < hi; i++ {
+		if f(i) {
+			return true
+		}
+	}
+	return false
+}
+
+// validPathElem: the closed set of path elements produced by NewPath.
+func validPathElem(pe PathElement) bool {
+	switch e := pe.(type) {
+	case PathKey:
+		return true
+	case PathIndex:
+		return true
+	case PathSet:
+		return true
+	case PathMultiset:
+		return true
+	case PathSetKeys:
+		return validObject(jsonObject(e))
+	case PathMultisetKeys:
+		return validObject(jsonObject(e))
+	default:
+		return false
+	}
+}
+
+func validPath(p Path) bool {
+	return forallInt(0, len(p), func(i int) bool { return validPathElem(p[i]) })
+}
+
+// validNode: no nil interface anywhere inside a document.
+func validNode(n JsonNode) bool {
+	switch v := n.(type) {
+	case nil:
+		return false
+	case jsonArray:
+		return validNodes(v)
+	case jsonList:
+		return validNodes(v)
+	case jsonSet:
+		return validNodes(v)
+	case jsonMultiset:
+		return validNodes(v)
+	case jsonObject:
+		return validObject(v)
+	default:
+		return true
+	}
+}
+
+func validNodes(l []JsonNode) bool {
+	return forallInt(0, len(l), func(i int) bool { return validNode(l[i]) })
+}
+
+func validObject(o jsonObject) bool {
+	return forallKey(o, o, func(k string) bool { return validNode(o[k]) })
+}
+
+// forallKey reports whether f holds for every key of a or b.
+func forallKey(a, b jsonObject, f func(k string) bool) bool {
+	for k := range a {
+		if !f(k) {
+			return false
+		}
+	}
+	for k := range b {
+		if !f(k) {
+			return false
+		}
+	}
+	return true
+}
+
+// same is structural identity of documents (deep equality, list order, no options).
+func same(a, b JsonNode) bool {
+	return specEq(a, b, nil)
+}
+
+func validStrategy(s patchStrategy) bool {
+	return s == strictPatchStrategy || s == mergePatchStrategy
+}
+
+// specArrayKind mirrors the documented option semantics: the first of
+// SET / SetKeys / MULTISET in the option list decides how arrays are read.
+// 1 = ordered list, 2 = set, 3 = multiset.
+func specArrayKind(options []Option) int {
+	if len(options) == 0 {
+		return 1
+	}
+	switch options[0].(type) {
+	case setOption, setKeysOption:
+		return 2
+	case multisetOption:
+		return 3
+	}
+	return specArrayKind(options[1:])
+}
+
+// specDispatch: a plain JSON array read under the given options.
+func specDispatch(n JsonNode, options []Option) JsonNode {
+	a, ok := n.(jsonArray)
+	if !ok {
+		return n
+	}
+	switch specArrayKind(options) {
+	case 2:
+		return jsonSet(a)
+	case 3:
+		return jsonMultiset(a)
+	}
+	return jsonList(a)
+}
+
+// specPrecision: the eps of the first Precision option, else 0.
+func specPrecision(options []Option) float64 {
+	if len(options) == 0 {
+		return 0
+	}
+	if p, ok := options[0].(precisionOption); ok {
+		return p.precision
+	}
+	return specPrecision(options[1:])
+}
+
+func specAbs(x float64) float64 {
+	if x < 0 {
+		return -x
+	}
+	return x
+}
+
+// specEq is the advertised equivalence of documents: deep structural equality,
+// numbers within eps, arrays read as list / set / multiset per the options.
+func specEq(a, b JsonNode, options []Option) bool {
+	switch x := a.(type) {
+	case voidNode:
+		_, ok := b.(voidNode)
+		return ok
+	case jsonNull:
+		_, ok := b.(jsonNull)
+		return ok
+	case jsonBool:
+		y, ok := b.(jsonBool)
+		return ok && x == y
+	case jsonString:
+		y, ok := b.(jsonString)
+		return ok && x == y
+	case jsonNumber:
+		y, ok := b.(jsonNumber)
+		return ok && specAbs(float64(x)-float64(y)) <= specPrecision(options)
+	case jsonObject:
+		y, ok := b.(jsonObject)
+		return ok && len(x) == len(y) && forallKey(x, x, func(k string) bool {
+			_, has := y[k]
+			return has && specEq(x[k], y[k], options)
+		})
+	case jsonList:
+		y, ok := specDispatch(b, options).(jsonList)
+		return ok && specEqList(x, y, options)
+	case jsonArray:
+		return specEq(specDispatch(x, options), b, options)
+	}
+	return false
+}
+
+func specEqList(x, y []JsonNode, options []Option) bool {
+	return len(x) == len(y) && forallInt(0, len(x), func(i int) bool { return specEq(x[i], y[i], options) })
+}
+
+// specHasPrecision: some Precision option is present.
+func specHasPrecision(options []Option) bool {
+	if len(options) == 0 {
+		return false
+	}
+	if _, ok := options[0].(precisionOption); ok {
+		return true
+	}
+	return specHasPrecision(options[1:])
+}
+
+// mapHas reports whether key k is present in o.
+func mapHas(o jsonObject, k string) bool {
+	_, ok := o[k]
+	return ok
+}
